@@ -273,15 +273,27 @@ impl<T> RcInner<T> {
 
     #[inline]
     pub(crate) fn is_not_destructed(&self) -> bool {
+        // The caller is in a critical section, so this epoch is at most one behind.
+        #[cfg(circ_verif)]
+        crate::verif::pre(crate::verif::site::U_ISND_EPOCH);
+        let epoch = global_epoch();
         #[cfg(circ_verif)]
         crate::verif::pre(crate::verif::site::U_ISND_LOAD);
         let mut old = State::from_raw(self.state.load(Ordering::SeqCst));
-        while !old.destructed() && old.strong() == 0 {
+        while !old.destructed() {
+            // A zero count gets a token so that the pending `try_destruct` re-defers. A non-zero
+            // count gets the current epoch, otherwise a cascade arriving through an old parent
+            // sees only old stamps and reclaims the object under the snapshot handed out here.
+            let new = if old.strong() == 0 {
+                old.add_strong(1)
+            } else {
+                old.with_epoch(epoch)
+            };
             #[cfg(circ_verif)]
             crate::verif::pre(crate::verif::site::U_ISND_CAS);
             match self.state.compare_exchange(
                 old.as_raw(),
-                old.add_strong(1).as_raw(),
+                new.as_raw(),
                 Ordering::SeqCst,
                 Ordering::SeqCst,
             ) {
@@ -289,7 +301,7 @@ impl<T> RcInner<T> {
                 Err(curr) => old = State::from_raw(curr),
             }
         }
-        !old.destructed()
+        false
     }
 }
 
